@@ -469,6 +469,12 @@ class ContractMixin:
                         s2.fact(f)
                 outs.append((s2, SV(TBool, z3.And(terms) if terms else z3.BoolVal(True))))
             return outs
+        if name in ('none_slot', 'empty_list_slot'):
+            ty = parse_type('Slot')
+            if name == 'none_slot':
+                return [(st, SV(ty, ty.inject('none')))]
+            lt = ty.alt('lst')
+            return [(st, SV(ty, ty.inject('lst', z3.Empty(lt.sort()))))]
         if name == 'is_alt':
             outs = []
             for s2, v in self.eval(st, e.args[0]):
